@@ -33,7 +33,7 @@ CONSTANTS MODE,        \* "gen" | "trace"
 
 VEHICLES == {"rec-nontail", "rec-tail", "rec-mutual", "rec-funcall", "rec-apply", "rec-map", "rec-foldl",
              "rec-handler", "rec-macro-expansion", "rec-macro-nested", "rec-macro-body", "rec-load-string",
-             "rec-eval", "rec-labels", "rec-self-apply", "rec-args", "rec-nested-args", "rec-nested-let", "rec-thread", "loop-dotimes", "loop-tail-growing",
+             "rec-eval", "rec-labels", "rec-self-apply", "rec-args", "rec-nested-args", "rec-nested-let", "rec-builtin-data", "rec-builtin-data-map", "rec-thread", "loop-dotimes", "loop-tail-growing",
              "sleep-long", "deep-form-eval", "deep-quasiquote"}
 ENTRIES  == {"top", "function", "lambda-funcall", "handler-body", "handler", "ignore-errors", "macro-expansion",
              "load-string", "let-value", "argument", "apply-callback"}
